@@ -2,13 +2,16 @@ pub mod c01;
 pub mod c02;
 pub mod c03;
 pub mod c04;
+pub mod c05;
+pub mod c06;
 pub mod c08;
 pub mod c09;
+pub mod c16;
 
 use crate::runner::Property;
 
 pub fn all() -> Vec<Box<dyn Property>> {
-    vec![Box::new(c01::C01), Box::new(c02::C02), Box::new(c03::C03), Box::new(c04::C04), Box::new(c08::C08), Box::new(c09::C09)]
+    vec![Box::new(c01::C01), Box::new(c02::C02), Box::new(c03::C03), Box::new(c04::C04), Box::new(c05::C05), Box::new(c06::C06), Box::new(c08::C08), Box::new(c09::C09), Box::new(c16::C16)]
 }
 pub fn by_id(id: &str) -> Option<Box<dyn Property>> {
     all().into_iter().find(|p| p.id().eq_ignore_ascii_case(id))
